@@ -267,7 +267,7 @@ func (h *hist) selectOp(e *env) {
 	entry := map[string]any{"op": "select", "out": fmt.Sprint(ids), "panicked": panicked}
 	if h.premise {
 		h.oracle(e, out, panicked, entry)
-		if h.lastSel != "" && h.lastSel != fmt.Sprint(ids) {
+		if h.lastSel != "" && h.lastSel != fmt.Sprint(ids)+" " {
 			e.run.Violate("C19:select-not-idempotent", "a repeated Select with nothing in between yielded a different sequence: "+h.lastSel+" then "+fmt.Sprint(ids),
 				map[string]any{"history": append(append([]any{}, h.log...), entry)})
 		}
